@@ -1,6 +1,7 @@
 /-
   C17 — discovered target sets follow discovery updates and reloads without gaps.
 -/
+import Kvass.Pins.Disc
 import Kvass.Model.Disc
 import Kvass.Proofs.AL
 
